@@ -116,4 +116,44 @@ theorem app_invComp_comp {G : Xf K} (hG : IsRot G.R) (X1 X2 : Xf K) (v : V3 K) :
     Xf.app (Xf.invComp (Xf.comp G X1) (Xf.comp G X2)) v = Xf.app (Xf.invComp X1 X2) v := by
   simp only [app_invComp, app_comp, inv_comp_app hG]
 
+/-! products and transposes of rotations are rotations -/
+theorem isRot_transpose {R : M3 K} (h : IsRot R) : IsRot (M3.transpose R) := by
+  obtain ⟨c00, c11, c22, c01, c02, c12, r00, r11, r22, r01, r02, r12⟩ := h
+  constructor <;> simp only [M3.transpose, M3.col0, M3.col1, M3.col2, V3.dot] at * <;> assumption
+
+theorem col0_mul (A B : M3 K) : M3.col0 (M3.mul A B) = M3.mulVec A (M3.col0 B) := by
+  simp only [M3.mul, M3.col0, M3.col1, M3.col2, M3.mulVec, V3.dot]
+theorem col1_mul (A B : M3 K) : M3.col1 (M3.mul A B) = M3.mulVec A (M3.col1 B) := by
+  simp only [M3.mul, M3.col0, M3.col1, M3.col2, M3.mulVec, V3.dot]
+theorem col2_mul (A B : M3 K) : M3.col2 (M3.mul A B) = M3.mulVec A (M3.col2 B) := by
+  simp only [M3.mul, M3.col0, M3.col1, M3.col2, M3.mulVec, V3.dot]
+theorem row0_mul (A B : M3 K) : (M3.mul A B).r0 = M3.tmulVec B A.r0 := by
+  simp only [M3.mul, M3.tmulVec, M3.mulVec, M3.transpose, V3.dot, M3.col0, M3.col1, M3.col2]
+  apply V3.ext' <;> (simp only; ring)
+theorem row1_mul (A B : M3 K) : (M3.mul A B).r1 = M3.tmulVec B A.r1 := by
+  simp only [M3.mul, M3.tmulVec, M3.mulVec, M3.transpose, V3.dot, M3.col0, M3.col1, M3.col2]
+  apply V3.ext' <;> (simp only; ring)
+theorem row2_mul (A B : M3 K) : (M3.mul A B).r2 = M3.tmulVec B A.r2 := by
+  simp only [M3.mul, M3.tmulVec, M3.mulVec, M3.transpose, V3.dot, M3.col0, M3.col1, M3.col2]
+  apply V3.ext' <;> (simp only; ring)
+
+theorem isRot_mul {A B : M3 K} (hA : IsRot A) (hB : IsRot B) : IsRot (M3.mul A B) := by
+  constructor
+  · rw [col0_mul, dot_mulVec hA]; exact hB.c00
+  · rw [col1_mul, dot_mulVec hA]; exact hB.c11
+  · rw [col2_mul, dot_mulVec hA]; exact hB.c22
+  · rw [col0_mul, col1_mul, dot_mulVec hA]; exact hB.c01
+  · rw [col0_mul, col2_mul, dot_mulVec hA]; exact hB.c02
+  · rw [col1_mul, col2_mul, dot_mulVec hA]; exact hB.c12
+  · rw [row0_mul, dot_tmulVec hB]; exact hA.r00
+  · rw [row1_mul, dot_tmulVec hB]; exact hA.r11
+  · rw [row2_mul, dot_tmulVec hB]; exact hA.r22
+  · rw [row0_mul, row1_mul, dot_tmulVec hB]; exact hA.r01
+  · rw [row0_mul, row2_mul, dot_tmulVec hB]; exact hA.r02
+  · rw [row1_mul, row2_mul, dot_tmulVec hB]; exact hA.r12
+
+/-- the relative frame `~X1*X2` of two rigid frames is a rotation -/
+theorem isRot_invComp {X1 X2 : Xf K} (h1 : IsRot X1.R) (h2 : IsRot X2.R) : IsRot (Xf.invComp X1 X2).R :=
+  isRot_mul (isRot_transpose h1) h2
+
 end Geom
